@@ -252,6 +252,24 @@ def rule_merge_precedence(ctx):
                 first_is_level = any(r != effect.LOCAL for r in r0) or not r0
                 second_is_level = bool(r2) and effect.LOCAL not in r2 and any(r == ('this',) for r in r2) and (
                     level_index_of(f.term(a[2], inline=True)) is not None or any(level_index_of(f.term(w, inline=True)) is not None for w in _defs_of_iter(f, a[2])))
+                if not second_is_level:
+                    # the range may reach the call through the bindings of a window helper's result (inlined): decide on the terms -
+                    # the second range is a position inside level(i), the first is not
+                    t0_, t2_ = f.term(a[0], inline=True), f.term(a[2], inline=True)
+                    def in_level(t, depth=0):
+                        for x in subterms(t):
+                            if isinstance(x, tuple) and x and x[0] == 'call' and level_index_of(x) is not None:
+                                return True
+                            if isinstance(x, tuple) and x and x[0] == 'local' and len(x) == 3 and depth < 3:
+                                d_ = f.defs.get(x[2], {})
+                                srcs = ([d_['init']] if d_.get('init') else []) + [(f.n(w)['args'][1] if f.n(w)['c'] == 'CXXOperatorCallExpr' else f.n(w)['ch'][1])
+                                                                                   for w in d_.get('writes', []) if f.n(w).get('op') == '=']
+                                if any(in_level(f.term(sn, inline=True), depth + 1) for sn in srcs):
+                                    return True
+                        return False
+                    if in_level(t2_) and not in_level(t0_):
+                        second_is_level = True
+                        first_is_level = in_level(t0_)
                 ok = (not first_is_level) and second_is_level
                 obs.append(Ob('MERGE-PRECEDENCE', f, c, 'merge(newer accumulator, older level(i)): the first range holds the newer data',
                               f"first range from {fmt_term(f.term(a[0], inline=False))[:40]}, second from {fmt_term(f.term(a[2], inline=False))[:40]}",
@@ -439,6 +457,43 @@ def _sorted_collection(f, call_term, colls):
     return False
 
 
+def rule_deleted_set_monotone(ctx):
+    """lower_bound() walks the levels from the newest to the oldest and collects the keys of the tombstones it meets; a tombstone
+    hides *every* older copy of its key (a key overwritten, pushed down and then erased has live-looking copies in two or more
+    older levels), so the collection may only grow while the walk lasts: any erase / clear / extract / assignment of it is a
+    violation - the second stale copy would be returned."""
+    obs = []
+    GROW_OR_READ = {'insert', 'emplace', 'emplace_hint', 'find', 'count', 'contains', 'end', 'cend', 'begin', 'cbegin', 'size', 'empty',
+                    'lower_bound', 'upper_bound', 'equal_range', 'reserve'}
+    for f in ctx.need(D + '::lower_bound', ctx.units):
+        sets = {}
+        for vid, d in f.defs.items():
+            ty = f.unit.tstr(d.get('t', 0)) if d.get('t') else ''
+            if not d.get('param') and ('std::set' in ty or 'std::unordered_set' in ty or 'std::multiset' in ty or 'std::map' in ty or 'std::unordered_map' in ty):
+                sets[vid] = d.get('name')
+        if not sets:
+            obs.append(Ob('TOMB-ESCAPE', f, 0, 'the keys of the tombstones met so far are kept in a set for the whole walk', 'no local set found in lower_bound()', UNDECIDED, arm='deleted-set'))
+            continue
+        bad = None
+        uses = 0
+        for c in f.calls():
+            nd = f.n(c)
+            if not reachable(f, c):
+                continue
+            o = nd.get('obj')
+            if nd['c'] == 'CXXMemberCallExpr' and o:
+                v = f.var_of(o)
+                if v in sets:
+                    uses += 1
+                    if nd.get('cn') not in GROW_OR_READ:
+                        bad = bad or (c, f"`{sets[v]}.{nd.get('cn')}(...)` at line {nd['l']} removes tombstone keys during the walk: an older copy of the same key in a further level is no longer hidden")
+            if nd['c'] == 'CXXOperatorCallExpr' and nd.get('op') == '=' and nd.get('args') and f.var_of(nd['args'][0]) in sets:
+                bad = bad or (c, f"`{sets[f.var_of(nd['args'][0])]}` is re-assigned during the walk")
+        obs.append(Ob('TOMB-ESCAPE', f, bad[0] if bad else 0, 'the set of tombstone keys only grows during the walk over the levels (a tombstone hides every older copy of its key)',
+                      bad[1] if bad else f"{uses} use(s) of {sorted(sets.values())}: insertions and lookups only", VIOLATED if bad else OK, arm='deleted-set'))
+    return obs
+
+
 def rule_tomb_escape_scan(ctx):
     """range() copies out only live items; Iterator::advance publishes only a live cursor"""
     obs = []
@@ -548,7 +603,12 @@ def rule_loop_agree(ctx):
                 # the narrowing searches feeding this call
                 srch = [s for s in f.calls_to('pgm::PGMIndex::search') if reachable(f, s)]
                 keys = {fmt_term(strip_cast(f.term(f.n(s)['args'][0], inline=False))) for s in srch}
-                guarded = all(any(strip_cast(t)[0] == 'call' and strip_cast(t)[1].endswith('::has_pgm') and lab is True for (t, lab, cn) in conds_of(f, s)) for s in srch)
+                def _has_pgm_true(t, lab):
+                    t = strip_cast(t)
+                    while t[0] == 'un' and t[1] == '!':
+                        t, lab = strip_cast(t[2]), not lab
+                    return t[0] == 'call' and t[1].endswith('::has_pgm') and lab is True
+                guarded = all(any(_has_pgm_true(t, lab) for (t, lab, cn) in conds_of(f, s)) for s in srch)
                 same_level = all(_as_int_terms(strip_cast(f.term(f.n(s)['obj'], inline=False))[2][0]) == var if strip_cast(f.term(f.n(s)['obj'], inline=False))[0] == 'call' else False for s in srch)
                 ok = bool(srch) and fmt_term(strip_cast(key)) in keys and guarded and same_level
                 obs.append(Ob('LOOP-AGREE', f, c, 'under has_pgm(i) the binary search is narrowed by pgm(i).search(k) for the same key k and level i',
@@ -797,6 +857,18 @@ def rule_index_sync(ctx):
 SEARCH_FNS = kinds.LOWER + kinds.UPPER + ('std::binary_search', 'std::equal_range')
 
 
+def _window_tainted(t, win):
+    if not isinstance(t, tuple) or not t:
+        return False
+    if t[0] == 'call' and t[1] in SEARCH_FNS:
+        return False
+    if t[0] == 'field' and t[1] in ('lo', 'hi') and isinstance(t[2], tuple) and (t[2][0] == 'local' or (t[2][0] == 'call' and str(t[2][1]).endswith('::search'))):
+        return True
+    if t[0] == 'local' and len(t) == 3 and t[2] in win:
+        return True
+    return any(_window_tainted(x, win) for x in t if isinstance(x, tuple))
+
+
 def rule_narrow_scope(ctx, tnames):
     """the window [lo, hi) returned by pgm(i).search(k) only guarantees where the lower bound of k lies: a bound derived from
     it may be used as an argument of a binary search (possibly through std::max/std::min), never to bound an iteration or
@@ -806,18 +878,31 @@ def rule_narrow_scope(ctx, tnames):
         for f in ctx.need(tn, ctx.units):
             # window variables: locals with a definition that reads .lo / .hi of a search result
             win = {}
+            srcs_of = {}
             for vid, d in f.defs.items():
                 if d.get('param'):
                     continue
                 srcs = ([d['init']] if d.get('init') else [])
+                if d.get('binding_of') and f.defs.get(d['binding_of'], {}).get('init'):
+                    srcs.append(f.defs[d['binding_of']]['init'])       # auto [first, last] = <window aggregate>
                 for w in d.get('writes', []):
                     nd = f.n(w)
                     if nd.get('op') == '=':
                         srcs.append(nd['args'][1] if nd['c'] == 'CXXOperatorCallExpr' else nd['ch'][1])
-                for sn in srcs:
-                    t = f.term(sn, inline=False)
-                    if any(s_[0] == 'field' and s_[1] in ('lo', 'hi') and (s_[2][0] == 'local' or (s_[2][0] == 'call' and s_[2][1].endswith('::search'))) for s_ in subterms(t)):
-                        win[vid] = d.get('name')
+                srcs_of[vid] = [f.term(sn, inline=False) for sn in srcs]
+            changed = True
+            while changed:
+                changed = False
+                for vid, ts in srcs_of.items():
+                    if vid in win:
+                        continue
+                    for t in ts:
+                        if _window_tainted(t, win):
+                            # reads .lo / .hi of a search result, or another window variable (not through a binary search: its
+                            # result is a position in its own right)
+                            win[vid] = f.defs[vid].get('name')
+                            changed = True
+                            break
             n_uses = 0
             bad = []
             for i in f.all_ids():
@@ -843,9 +928,15 @@ def rule_narrow_scope(ctx, tnames):
                     if c == 'CXXOperatorCallExpr' and pn.get('op') in ('+', '-'):
                         cur, p_ = p_, f.sparent(p_)
                         continue
-                    if (c == 'BinaryOperator' and pn['op'] == '=' and f.strip(pn['ch'][0]) == cur) or (c == 'CXXOperatorCallExpr' and pn.get('op') == '=' and f.strip(pn['args'][0]) == cur):
-                        ok = True
+                    if (c == 'BinaryOperator' and pn['op'] == '=') or (c == 'CXXOperatorCallExpr' and pn.get('op') == '=' and len(pn.get('args', [])) == 2):
+                        ok = True     # the target of an assignment, or its source: the assigned variable is a window variable itself
                         break
+                    if c == 'InlinedReturn':
+                        ok = True       # the value an inlined window helper returns: whatever receives it is a window variable itself
+                        break
+                    if c in ('InitListExpr', 'InlinedCall') or (c == 'CallExpr' and pn.get('ct') in ('std::make_pair', 'std::make_tuple')):
+                        cur, p_ = p_, f.sparent(p_)
+                        continue        # packed into the aggregate a window helper returns; its bindings are window variables
                     if c in ('CXXConstructExpr', 'ImplicitCastExpr', 'CStyleCastExpr', 'CXXFunctionalCastExpr', 'CXXStaticCastExpr', 'MaterializeTemporaryExpr'):
                         cur, p_ = p_, f.sparent(p_)
                         continue
@@ -863,12 +954,12 @@ def rule_narrow_scope(ctx, tnames):
 
 
 def rules_c05(ctx):
-    return (rule_tomb_guard(ctx) + rule_merge_precedence(ctx) + rule_tomb_escape_point(ctx) + rule_loop_agree(ctx) + [o for o in rule_kind_dynamic(ctx) if o.arm.startswith(('find', 'lower_bound'))] +
+    return (rule_tomb_guard(ctx) + rule_merge_precedence(ctx) + rule_tomb_escape_point(ctx) + rule_deleted_set_monotone(ctx) + rule_loop_agree(ctx) + [o for o in rule_kind_dynamic(ctx) if o.arm.startswith(('find', 'lower_bound'))] +
             rule_narrow_scope(ctx, [D + '::find', D + '::lower_bound']))
 
 
 def rules_c06(ctx):
-    return (rule_tomb_escape_scan(ctx) + rule_tomb_guard(ctx, ('range',)) + rule_loop_agree(ctx) + [o for o in rule_kind_dynamic(ctx) if o.arm.startswith(('range', 'lazy'))] + rule_derived(ctx) +
+    return (rule_tomb_escape_scan(ctx) + rule_deleted_set_monotone(ctx) + rule_tomb_guard(ctx, ('range',)) + rule_loop_agree(ctx) + [o for o in rule_kind_dynamic(ctx) if o.arm.startswith(('range', 'lazy'))] + rule_derived(ctx) +
             rule_narrow_scope(ctx, [D + '::lower_bound', D + '::range', IT + '::lazy_initialize']))
 
 
